@@ -29,7 +29,7 @@ def make_cmds(rnd, kind, S, params, tier):
 from props import gen_iters, gen_htfcit
 from props.subgen import Sub, Slice
 CFG = DC.Config("C13", TABLE_KINDS + ["XBW"], make_cmds, nsets=(10, 30), big=True,
-                components=[Sub(gen_iters, ["contig", "dup", "nocontig", "blocks", "control"]), Slice(gen_htfcit, 4, 0)],
+                components=[Sub(gen_iters, ["contig", "dup", "nocontig", "blocks", "control"]), Slice(gen_htfcit, 4, 0, 2)],
                 rule="extractTable of the 12 kinds that implement it must yield exactly numElements strings, the k-th being extract(k) "
                      "(= the sorted input for order-preserving kinds); every string iterator (table, prefix, substring) is drained "
                      "with hasNext, each string must be NUL-terminated with reported length = strlen, hasNext must be false after the "
